@@ -148,7 +148,7 @@ def gen_cases(ctx):
     # unsigned 16/32-bit files written by SimpleITK (promotions)
     for fmt in FORMATS:
         for dt in ("uint16", "uint32"):
-            for D in ((2, 3) if thorough else (rng.choice([2, 3]),)):
+            for D in ((2, 3) if thorough else ((3,) if fmt == ".mha" else (rng.choice([2, 3]),))):   # 2-D .mha is unreadable anyway
                 c = mk_case(rng, "from_sitk", fmt, D, 1, "int32", True)
                 hi = 65535 if dt == "uint16" else 2 ** 32 - 1
                 c["dtype"] = dt
